@@ -254,9 +254,7 @@ func (e *Exec) errMsg(th *Thread, err Value) Value {
 		}
 	}
 	// call Error() through SSA
-	e.P.buildMu.Lock()
-	m := e.P.prog.LookupMethod(iv.t, nil, "Error")
-	e.P.buildMu.Unlock()
+	m := e.P.lookupMethod(iv.t, nil, "Error")
 	if m == nil {
 		return "<error>"
 	}
@@ -296,9 +294,7 @@ func (e *Exec) unwrapErr(th *Thread, err IfaceV) (IfaceV, bool) {
 		}
 		return IfaceV{}, false
 	}
-	e.P.buildMu.Lock()
-	m := e.P.prog.LookupMethod(err.t, nil, "Unwrap")
-	e.P.buildMu.Unlock()
+	m := e.P.lookupMethod(err.t, nil, "Unwrap")
 	if m != nil && m.Signature.Results().Len() == 1 {
 		r := e.callSync(th, m, []Value{err.v})
 		if c, ok := r.(IfaceV); ok {
@@ -366,9 +362,7 @@ func (e *Exec) toNative(th *Thread, v Value, verb byte) (interface{}, bool) {
 				return m, false
 			}
 			if hasMethod(e, x.t, "String") {
-				e.P.buildMu.Lock()
-				m := e.P.prog.LookupMethod(x.t, nil, "String")
-				e.P.buildMu.Unlock()
+				m := e.P.lookupMethod(x.t, nil, "String")
 				if m != nil {
 					r := e.callSync(th, m, []Value{x.v})
 					if s, ok := r.(string); ok {
@@ -965,7 +959,14 @@ func init() {
 		return v
 	}
 	I["math/rand.Int63n"] = I["math/rand.Intn"]
+	I["math/rand.Int31"] = func(e *Exec, th *Thread, fn *ssa.Function, a []Value) Value { return e.ctx.BVConst(32, 7) }
+	I["math/rand.Int63"] = func(e *Exec, th *Thread, fn *ssa.Function, a []Value) Value { return e.ctx.BVConst(64, 7) }
 
+	// ---- encoding/json: reflection-driven, not encodable. Marshal is only used
+	// for log output in the code under test: it yields an opaque document.
+	I["encoding/json.Marshal"] = func(e *Exec, th *Thread, fn *ssa.Function, a []Value) Value {
+		return TupleV{e.bytesValue([]byte("{}")), IfaceV{}}
+	}
 	// ---- math/bits: table lookups replaced by ite chains over the bits ----
 	bitLen := func(w int) intrinsicFn {
 		return func(e *Exec, th *Thread, fn *ssa.Function, a []Value) Value {
